@@ -39,10 +39,18 @@ TRUSTED_EXTRA = [
     'dynamically by this correspondence run and its totality over the public API is re-proved from the live source on every run, '
     'but the contracts are NOT proved from the Python source',
     'C11: numpy.shares_memory / ndarray.tobytes as the measurement of aliasing and of bit-for-bit equality',
+    'C11: the AST effect inference (harness/props/_c11_effects.py) that produces the per-operation effect summaries checked in Lean '
+    '(C11_contracts_consistent_with_source): flow-sensitive abstract interpretation with library callees inlined; its assumptions are '
+    'that numpy/scipy functions do not write their inputs except the listed in-place forms, that the listed numpy functions/methods '
+    'return views and all others fresh arrays, that methods are resolved by name over the analysed classes (union of all definitions), '
+    'that loops over an operand\'s bases run at least once (pardim >= 1), and the textual scan of basis_eval.pyx for written arguments; '
+    'its sensitivity is re-tested in the thorough tier by planting 19 contract violations in a copy of the sources',
 ]
 ASSUMPTIONS = [
     'C11 is partial: the Lean theorems are unbounded over histories of contract-respecting steps of the heap model; that each '
-    'real operation respects its contract is tested (all operations x operand classes), not proved',
+    'real operation respects its contract is (a) tested dynamically (all operations x operand classes) and (b) checked against an '
+    'effect summary inferred from the current source (stores through parameters / returned aliases / retained references), '
+    'which is a static over-approximation by a trusted analyser, not a proof from the Python semantics',
 ]
 
 CONTRACTED = [e for e in T.TABLE if e.contracted]
